@@ -14,6 +14,9 @@ def obligations(tier):
               bounds="one read-only operation of 9 kinds with symbolic arguments (3 representative instruments x 4 difficulties, 6 bound forms) on a parsed chart; full observation + twin equality before/after"),
            Ob("C19.rejects_assignment", "CH", "harness.h_chart", "rejects_assignment", 600, funcs=("dataclass(frozen=True) on every event / track / metadata class",),
               bounds="every declared field of every event, track and metadata class")]
+    for cv, what in ((1, "want_tracks=[]"), (2, "one selected track")):
+        obs.append(Ob(f"C19.one_op.parsed_with[{what}]", "CH", "harness.h_chart", "immutability", 1500, {"VF_CV": cv}, funcs=fns,
+                      bounds=f"the chart under test was parsed with {what}"))
     if tier == "thorough":
         for p in range(10):
             obs.append(Ob(f"C19.one_op.instrument{p}", "CH", "harness.h_chart", "immutability", 1500, {"VF_ALLINSTR": 1, "VF_NPARTS": 10, "VF_PART": p}, funcs=fns,
